@@ -192,6 +192,8 @@ func vfGenCounter(rt *rapid.T, res int64, slow bool) ([]sample, string) {
 	maxInc := rapid.SampledFrom([]int64{1, 10, 1000, 1 << 30}).Draw(rt, "maxInc")
 	xs := make([]sample, n)
 	cur := rapid.Int64Range(0, 1000).Draw(rt, "v0")
+	// integer-valued (exact) or fractional (tolerance) counters, as in the level-1 check
+	vfDiv := rapid.SampledFrom([]float64{1, 1, 100, 1000, 7}).Draw(rt, "valueDivisor")
 	for i := range xs {
 		xs[i].t = ts[i]
 		if v, ok := vfGenNaN(rt, nanRate); ok {
@@ -212,7 +214,7 @@ func vfGenCounter(rt *rapid.T, res int64, slow bool) ([]sample, string) {
 				cur += rapid.Int64Range(0, maxInc).Draw(rt, "inc")
 			}
 		}
-		xs[i].v = float64(cur)
+		xs[i].v = float64(cur) / vfDiv
 	}
 	return xs, fmt.Sprintf("%s/reset1in%d", tmode, resetRate)
 }
@@ -261,6 +263,13 @@ func vfRefCounter(nn []sample) []float64 {
 
 // vfCheckCounterPoints compares the points emitted by a counter reader with the reference.
 func vfCheckCounterPoints(points, nn []sample, adj []float64) string {
+	vfExact := true
+	for _, x := range nn {
+		if x.v != math.Trunc(x.v) {
+			vfExact = false
+			break
+		}
+	}
 	if len(nn) == 0 {
 		if len(points) != 0 {
 			return fmt.Sprintf("no non-NaN raw sample but %d counter points emitted", len(points))
@@ -281,7 +290,7 @@ func vfCheckCounterPoints(points, nn []sample, adj []float64) string {
 		if j < 0 {
 			return fmt.Sprintf("point emitted at %d, before the first raw sample %d", p.t, nn[0].t)
 		}
-		if p.v != adj[j] {
+		if !vfCounterValueEqual(p.v, adj[j], vfExact) {
 			return fmt.Sprintf("point #%d (%d, %v): reset-adjusted raw counter at last raw sample <= T (index %d, t=%d, raw=%v) is %v", i, p.t, p.v, j, nn[j].t, nn[j].v, adj[j])
 		}
 	}
@@ -386,4 +395,11 @@ func vfRangesOK(ms []chunks.Meta) string {
 		}
 	}
 	return ""
+}
+
+func vfCounterValueEqual(got, want float64, exact bool) bool {
+	if exact {
+		return got == want
+	}
+	return math.Abs(got-want) <= 1e-9*math.Max(1, math.Abs(want))
 }
